@@ -307,6 +307,32 @@ def run_case(ck, rng, root, ci, tier):
         nontriv = nontriv or (N >= 2 and off.any())
     ck.case({"kind": kind, "mode": mode, "config": cfgkw, "N": N, "sizes": sizes, "extent": ext,
              "base": field["base"]} if len(ck.samples) < 3 else None, desc if nontriv else None)
+    # stratum: the same catalogs measured again with the other closed side (same edges) — the caches now hold trees of
+    # the first measurement; the counts must still be those of the configuration given NOW
+    if status == "ok" and ci % 3 == 0:
+        other = "left" if cfgkw["closed"] == "right" else "right"
+        cfgkw2 = dict(cfgkw, closed=other)
+        try:
+            config2 = config.modify(closed=other)
+            if kind == "auto":
+                cfs2 = yaw.autocorrelate(config2, cats[0], cats[1], count_rr=True)
+            else:
+                cfs2 = yaw.crosscorrelate(config2, cats[0], cats[1], **kw)
+        except Exception as exc:  # noqa: BLE001
+            ck.add_violation(f"second measurement on the same catalogs with closed='{other}' raised {type(exc).__name__}: {exc}",
+                             dict(rep, config=cfgkw2, earlier_measurement=cfgkw, what="raises"))
+            return "bad"
+        ck.count("stratum=remeasure-other-closed-side")
+        rep2 = dict(rep, config=cfgkw2, earlier_measurement_on_same_caches=cfgkw)
+        for name, a, b, binned2 in terms:
+            ncs = [getattr(cf, name) for cf in cfs2]
+            st, _ = compare(ck, f"{kind}:{name} (measured after closed='{cfgkw['closed']}' on the same caches)", ncs, data[a],
+                            None if b is None else data[b], cfgkw2, cosmology, N, binned2, rep2)
+            if st == "bad":
+                return "bad"
+            if st == "guard":
+                break
+        ck.case(None, desc + ("remeasured",))
     return status
 
 
